@@ -193,6 +193,12 @@ def run(ctx):
             if i % 23 == 7:
                 # a string whose text is the word None, under a type that makes the codec quote it
                 typ, tc, value, dc = ctx.rng.choice([("str", "scalar_str"), ("Optional[str]", "optional_str"), ("Union[int, str]", "union_scalar")]) + ("None", "str_none_word")
+            if i % 29 == 11:
+                # numbers and booleans under a type that also admits strings (the renderer's quoting path sees them);
+                # 1.0 / True and 0.0 / False are EQUAL values of different types
+                typ, tc = ctx.rng.choice([("Union[float, str]", "union_float_str"), ("Union[bool, str]", "union_bool_str"), ("Optional[Union[float, bool, str]]", "union_float_bool_str")])
+                value = ctx.rng.choice([1.0, True, 0.0, False, 2.5, -1.0])
+                dc = {1.0: "float_one", 0.0: "float_zero", 2.5: "float_pos", -1.0: "float_neg"}[value] if isinstance(value, float) else ("bool_true" if value else "bool_false")
             if value is IRGen.MISSING:
                 continue
             how = "set_default_doc" if i % 3 == 0 else PHRASES[(i // 3) % 4]
